@@ -194,3 +194,32 @@ def inline_temporaries(stmts, keep=()):
                     changed = True
                     break
     return stmts
+
+
+def terminal(stmts):
+    """the statement list cannot fall through its end (last statement returns / raises / continues / breaks)"""
+    return bool(stmts) and isinstance(stmts[-1], (ast.Return, ast.Raise, ast.Continue, ast.Break))
+
+
+def if_chain(stmts, i):
+    """The chain of alternatives that starts at the If statement stmts[i], however it is laid out: `elif` nesting, or consecutive sibling Ifs
+    whose bodies cannot fall through (`if a: return x` / `if b: return y` / ...).  Returns (branches, tail): branches is a list of
+    (test, body, If node); tail is what runs when no test holds (the final else, or the statements after the chain)."""
+    branches = []
+    node = stmts[i]
+    rest = list(stmts[i + 1:])
+    while True:
+        branches.append((node.test, node.body, node))
+        if node.orelse:
+            if len(node.orelse) == 1 and isinstance(node.orelse[0], ast.If):
+                node = node.orelse[0]
+                continue
+            tail = list(node.orelse)
+            if not terminal(tail):
+                tail = tail + rest
+            return branches, tail
+        if terminal(node.body) and rest and isinstance(rest[0], ast.If):
+            node = rest[0]
+            rest = rest[1:]
+            continue
+        return branches, rest
